@@ -85,6 +85,14 @@ PARTIAL_SCOPE = ["Vi operators with motions (dw, yw, \"ayw ...) are property C08
                  "(Buffer.delete with a negative count); visual BLOCK + operator (d / y) acts on a block one column "
                  "narrower than C-v ... x"]
 
+ANCHORS = ["src/prompt_toolkit/key_binding/bindings/named_commands.py",
+           "src/prompt_toolkit/key_binding/bindings/emacs.py",
+           "src/prompt_toolkit/key_binding/bindings/vi.py",
+           "src/prompt_toolkit/clipboard/in_memory.py",
+           "src/prompt_toolkit/clipboard/base.py",
+           "src/prompt_toolkit/buffer.py",
+           "src/prompt_toolkit/document.py"]
+
 TY = {"c": SelectionType.CHARACTERS, "l": SelectionType.LINES, "b": SelectionType.BLOCK}
 TYR = {v: k for k, v in TY.items()}
 MODE = {"e": PasteMode.EMACS, "B": PasteMode.VI_BEFORE, "A": PasteMode.VI_AFTER}
@@ -471,7 +479,21 @@ def rand_ring(rng, maxsize):
     return [["c", rand_text(rng, rng.randrange(0, 4))] for _ in range(k)]
 
 
+_GENERATED = set()
+
+
 def cases(tier, rng):
+    """exhaustive small scope + seeded random; when core asks again for the same tier (source-change
+    escalation with extra seeds) only the random part is generated again"""
+    again = tier in _GENERATED
+    _GENERATED.add(tier)
+    for c in cases_(tier, rng):
+        if again and ("seqs" in c or (c["kind"] == "paste" and len(c["qs"]) > 8)):
+            continue
+        yield c
+
+
+def cases_(tier, rng):
     quick = tier == "quick"
     # ---- emacs, exhaustive small scope
     maxlen = 3 if quick else 4
